@@ -55,9 +55,12 @@ class ForwardAnalysis(Generic[T], Analysis[T], ABC):
             bbs = [bb for bb in bbs if bb.reachable]
         vals_before = {bb: self.initial() for bb in bbs}  # return value
         vals_after = {bb: self.apply_bb(vals_before[bb], bb) for bb in bbs}  # cache
-        queue = set(bbs)
+        # The worklist is an insertion-ordered dict rather than a set: BBs are hashed by
+        # identity, so popping from a set would make the visit order depend on memory
+        # addresses
+        queue = dict.fromkeys(bbs)
         while len(queue) > 0:
-            bb = queue.pop()
+            bb, _ = queue.popitem()
             preds = (
                 bb.predecessors + bb.dummy_predecessors
                 if self.include_unreachable()
@@ -67,9 +70,9 @@ class ForwardAnalysis(Generic[T], Analysis[T], ABC):
             val_after = self.apply_bb(vals_before[bb], bb)
             if not self.eq(val_after, vals_after[bb]):
                 vals_after[bb] = val_after
-                queue.update(bb.successors)
+                queue.update(dict.fromkeys(bb.successors))
                 if self.include_unreachable():
-                    queue.update(bb.dummy_successors)
+                    queue.update(dict.fromkeys(bb.dummy_successors))
         return vals_before
 
 
@@ -86,9 +89,11 @@ class BackwardAnalysis(Generic[T], Analysis[T], ABC):
         Returns a mapping from basic blocks to lattice values at the start of each BB.
         """
         vals_before = {bb: self.initial() for bb in bbs}
-        queue = set(bbs)
+        # Insertion-ordered worklist, see `ForwardAnalysis.run`. The visit order matters
+        # here since the liveness domain records a BB in which each use occurs.
+        queue = dict.fromkeys(bbs)
         while len(queue) > 0:
-            bb = queue.pop()
+            bb, _ = queue.popitem()
             succs = (
                 bb.successors + bb.dummy_successors
                 if self.include_unreachable()
@@ -98,9 +103,9 @@ class BackwardAnalysis(Generic[T], Analysis[T], ABC):
             val_before = self.apply_bb(val_after, bb)
             if not self.eq(vals_before[bb], val_before):
                 vals_before[bb] = val_before
-                queue.update(bb.predecessors)
+                queue.update(dict.fromkeys(bb.predecessors))
                 if self.include_unreachable():
-                    queue.update(bb.dummy_predecessors)
+                    queue.update(dict.fromkeys(bb.dummy_predecessors))
         return vals_before
 
 
